@@ -1101,6 +1101,7 @@ def sweep_inputs(name: str):
 SWEEPS = ['attribute-code', 'extended-community', 'ipv6-extended-community', 'bgp-ls-attribute', 'prefix-sid', 'tunnel-encapsulation', 'route-type', 'nlri-length',
           'flowspec-component', 'bgp-ls-nlri', 'capability-code', 'operational-type', 'next-hop-length', 'next-hop-length-extnh']
 # the session a sweep runs under (default: the plain one)
+SWEEPS_ALSO_EXTNH = ('route-type', 'nlri-length', 'flowspec-component', 'bgp-ls-nlri', 'tunnel-encapsulation', 'bgp-ls-attribute')
 SWEEP_SESSION = {'next-hop-length-extnh': 0}
 SWEEP_SHARDS = {'extended-community': 8, 'bgp-ls-attribute': 6, 'prefix-sid': 6, 'route-type': 6, 'attribute-code': 6, 'flowspec-component': 6, 'tunnel-encapsulation': 4, 'nlri-length': 3, 'bgp-ls-nlri': 3}
 
@@ -1221,9 +1222,11 @@ def worker(job):
                 _one(res, S, mtype, bytes([b0, b1]), False, 'small')
     elif kind == 'sweep':
         _, name, shard, nshards = job
-        S = session(SWEEP_SESSION.get(name, PLAIN_SESSION))
+        # 'name@extnh': the same inputs on session 0 (Extended Next Hop negotiated)
+        base, _, where = name.partition('@')
+        S = session(0 if where == 'extnh' else SWEEP_SESSION.get(base, PLAIN_SESSION))
         clear_attribute_cache()
-        for k, (mtype, b) in enumerate(sweep_inputs(name)):
+        for k, (mtype, b) in enumerate(sweep_inputs(base)):
             if k % nshards != shard:
                 continue
             res['kinds'][f'sweep-{name}'] += 1
@@ -1288,6 +1291,8 @@ def jobs_for(tier: str):
         nsh = SWEEP_SHARDS.get(name, 1)
         for sh in range(nsh):
             jobs.append((200000, ('sweep', name, sh, nsh)))
+            if name in SWEEPS_ALSO_EXTNH:
+                jobs.append((200000, ('sweep', name + '@extnh', sh, nsh)))
     # (e) every valid seed decoded right after every valid seed, the caches left alone (quick: sessions 0 and 1)
     for sidx in ((0, 1) if tier == 'quick' else range(4)):
         for sh in range(32):
